@@ -426,10 +426,16 @@ class ExitStack:
         # we may have receive a child exception of the one that needs stitching
         # walk the contexts until we reach a root exception (no context) or our
         # own base context
+        # re-raising the exception in flight needs no stitching;
+        # pointing it at itself would create a context cycle
+        if exception is context:
+            return
+        seen = {id(exception)}
         exc_context = exception.__context__
         while exc_context is not None and exc_context is not base_context:
-            if exc_context is context:
+            if exc_context is context or id(exc_context) in seen:
                 return
+            seen.add(id(exc_context))
             exception = exc_context
             exc_context = exception.__context__
         # Change the end of the chain to point to the exception
